@@ -31,6 +31,7 @@ import (
 	"github.com/cenkalti/rain/v2/internal/peerprotocol"
 	"github.com/cenkalti/rain/v2/internal/storage"
 	"github.com/zeebo/bencode"
+	"go.etcd.io/bbolt"
 )
 
 // ---------------------------------------------------------------------------------------------
@@ -680,6 +681,16 @@ func VerifNewWorld(op string) (*VerifWorld, string) {
 	w.tor = tor
 	w.t = tor.torrent
 	w.startSink()
+	if m["seeded"] == "1" {
+		// the files are already on disk with the true content
+		off := 0
+		for i, l := range w.flens {
+			if !w.fpads[i] {
+				w.sto.files[w.fileName(i)] = &verifFileData{data: append([]byte(nil), w.content[off:off+l]...), exists: true}
+			}
+			off += l
+		}
+	}
 	return w, fmt.Sprintf("ok isize=%d ", len(w.infoBytes)) + w.observe()
 }
 
@@ -1049,6 +1060,14 @@ func (w *VerifWorld) Op(op string) string {
 		if !w.call(func() { w.tor.Announce() }) {
 			return "hang"
 		}
+	case "persist":
+		// the periodic resume writer firing now (Session.updateStatsLoop -> updateStats)
+		if !w.call(func() { w.sess.updateStats() }) {
+			return "hang"
+		}
+	case "crashcheck":
+		o := w.observeAfterSettle()
+		return "crash=" + w.crashCheck(m) + " " + o
 	case "magnet":
 		_, err := w.tor.Magnet()
 		v := "ok"
@@ -1466,6 +1485,117 @@ func verifCompact(s string) []byte {
 		out = append(out, byte(ta.Port>>8), byte(ta.Port))
 	}
 	return out
+}
+
+// clone returns a deep copy of the storage contents (as the disk would be found after a crash now).
+func (s *verifStorage) clone() *verifStorage {
+	s.mu.Lock()
+	defer s.mu.Unlock()
+	c := newVerifStorage()
+	for n, f := range s.files {
+		c.files[n] = &verifFileData{data: append([]byte(nil), f.data...), exists: f.exists}
+	}
+	return c
+}
+
+// crashCheck: the process dies now. A copy of the resume database (a consistent snapshot taken through a
+// read transaction) and of the storage is opened by a fresh Session; optionally some files are missing.
+// The restarted torrent is started and, once allocation / verification have finished, every piece it
+// treats as downloaded must hold the true bytes in the copied storage.
+func (w *VerifWorld) crashCheck(m map[string]string) string {
+	dir, err := os.MkdirTemp("", "verifcrash")
+	if err != nil {
+		return "error:tmp"
+	}
+	defer os.RemoveAll(dir)
+	dbPath := filepath.Join(dir, "session.db")
+	err = w.sess.db.View(func(tx *bbolt.Tx) error { return tx.CopyFile(dbPath, 0o600) })
+	if err != nil {
+		return "error:dbcopy"
+	}
+	sto := w.sto.clone()
+	if d := m["delete"]; d != "" {
+		for i := range w.flens {
+			if d == "all" || d == strconv.Itoa(i) {
+				if f, ok := sto.files[w.fileName(i)]; ok {
+					f.exists = false
+					f.data = nil
+				}
+			}
+		}
+	}
+	sto.truth = w.sto.truth
+	cfg := w.sess.config
+	cfg.Database = dbPath
+	cfg.CustomStorage = sto
+	cfg.ResumeOnStartup = false
+	s2, err := NewSession(cfg)
+	if err != nil {
+		return "error:reopen:" + verifErrClass(err)
+	}
+	defer s2.Close()
+	t2 := s2.GetTorrent(w.tor.ID())
+	if t2 == nil {
+		return "error:torrent-missing"
+	}
+	_ = t2.Start()
+	deadline := time.Now().Add(8 * time.Second)
+	for {
+		st := t2.Stats()
+		if st.Status != Allocating && st.Status != Verifying && st.Status != Stopped {
+			break
+		}
+		if st.Status == Stopped && st.Error != nil {
+			return "error:stopped:" + verifErrClass(st.Error)
+		}
+		if time.Now().After(deadline) {
+			return "error:unsettled"
+		}
+		time.Sleep(time.Millisecond)
+	}
+	st := t2.Stats() // barrier
+	_ = st
+	tt := t2.torrent
+	if tt.info == nil {
+		return "ok" // metadata not known: nothing can be claimed
+	}
+	if tt.bitfield == nil {
+		return "ok"
+	}
+	var bad []string
+	sto.mu.Lock()
+	for i := uint32(0); i < tt.bitfield.Len(); i++ {
+		if tt.bitfield.Test(i) && !w.pieceOnDisk(sto, int(i)) {
+			bad = append(bad, strconv.Itoa(int(i)))
+		}
+	}
+	sto.mu.Unlock()
+	if len(bad) > 0 {
+		return "bad:" + strings.Join(bad, "+")
+	}
+	return "ok"
+}
+
+// pieceOnDisk: the non-padding bytes of piece i in sto are the true bytes.
+func (w *VerifWorld) pieceOnDisk(sto *verifStorage, i int) bool {
+	start, end := i*w.pl, (i+1)*w.pl
+	if end > len(w.content) {
+		end = len(w.content)
+	}
+	pos := 0
+	for fi, l := range w.flens {
+		fs, fe := pos, pos+l
+		pos = fe
+		s, e := max(fs, start), min(fe, end)
+		if s >= e || w.fpads[fi] {
+			continue
+		}
+		f := sto.files[w.fileName(fi)]
+		if f == nil || !f.exists || len(f.data) < e-fs || !bytes.Equal(f.data[s-fs:e-fs], w.content[s:e]) {
+			return false
+		}
+	}
+	return true
 }
 
 // VerifTruth exposes ground truth needed by suites (e.g. to script an honest seed).
